@@ -1,10 +1,12 @@
 package c15
 
 import (
+	"bytes"
 	"context"
 	"encoding/json"
 	"errors"
 	"fmt"
+	"io"
 	"net/http"
 	"sort"
 	"strings"
@@ -15,8 +17,11 @@ import (
 
 	"github.com/quay/claircore"
 	"github.com/quay/claircore/datastore"
+	"github.com/quay/claircore/enricher/cvss"
+	"github.com/quay/claircore/enricher/epss"
 	"github.com/quay/claircore/libvuln/driver"
 	"github.com/quay/claircore/libvuln/updates"
+	"github.com/quay/claircore/rhel/vex"
 	"github.com/quay/claircore/verifharness/internal/hx"
 	"github.com/quay/claircore/verifharness/internal/registry"
 )
@@ -469,6 +474,108 @@ func runVexHistory(r *hx.Run, p *pipeline, pick func() []byte, rnd *hx.Rand, cfg
 		store.mu.Unlock()
 		if n != 0 || (out != "update true" && out != "none true" && out != "none false") {
 			r.Fail("", fmt.Sprintf("vex: run %d over an unchanged site (%s) changed the store: %q with %d items", i+2, d.desc, out, n))
+		}
+	}
+}
+
+// The read loops of epss, cvss and rhel/vex run over a spool that their own
+// Fetch wrote, so a damaged transfer never reaches ParseEnrichment /
+// DeltaParse through Fetch. driveUpdater's parse-error branches for
+// enrichment and delta updaters are exercised here with the real parsers
+// behind a Fetch that hands out a damaged spool (a spool file cut short or
+// unreadable half way).
+
+type spoolEpss struct {
+	*epss.Enricher
+	mk func() io.Reader
+}
+
+func (s *spoolEpss) FetchEnrichment(context.Context, driver.Fingerprint) (io.ReadCloser, driver.Fingerprint, error) {
+	return io.NopCloser(s.mk()), "spool", nil
+}
+
+type spoolCvss struct {
+	*cvss.Enricher
+	mk func() io.Reader
+}
+
+func (s *spoolCvss) FetchEnrichment(context.Context, driver.Fingerprint) (io.ReadCloser, driver.Fingerprint, error) {
+	return io.NopCloser(s.mk()), "spool", nil
+}
+
+type spoolVex struct {
+	*vex.Updater
+	mk func() io.Reader
+}
+
+func (s *spoolVex) Fetch(context.Context, driver.Fingerprint) (io.ReadCloser, driver.Fingerprint, error) {
+	return io.NopCloser(s.mk()), "spool", nil
+}
+
+func runManagerSpools(r *hx.Run, ts []target, rnd *hx.Rand, cfg hx.Config) {
+	for ti := range ts {
+		t := &ts[ti]
+		var mk func(rd func() io.Reader) driver.Updater
+		switch t.name {
+		case "epss":
+			mk = func(rd func() io.Reader) driver.Updater { return &spoolEpss{&epss.Enricher{}, rd} }
+		case "cvss":
+			mk = func(rd func() io.Reader) driver.Updater { return &spoolCvss{&cvss.Enricher{}, rd} }
+		case "vex":
+			mk = func(rd func() io.Reader) driver.Updater { return &spoolVex{&vex.Updater{}, rd} }
+		default:
+			continue
+		}
+		for round := 0; round < cfg.N(2, 8) && !r.Stop(); round++ {
+			_, spool := t.gen(rnd, 1+rnd.Intn(3))
+			type sc struct {
+				desc string
+				rd   func() io.Reader
+			}
+			scs := []sc{{"intact", func() io.Reader { return bytes.NewReader(spool) }}}
+			for i := 0; i < cfg.N(5, 20); i++ {
+				k := rnd.Intn(len(spool))
+				b := spool[:k]
+				if rnd.Chance(1, 2) {
+					scs = append(scs, sc{fmt.Sprintf("spool-cut@%d", k), func() io.Reader { return bytes.NewReader(b) }})
+				} else {
+					scs = append(scs, sc{fmt.Sprintf("spool-read-error@%d", k), func() io.Reader { return &failReader{b: b, chunk: 512, term: errInjected} }})
+				}
+			}
+			for _, s := range scs {
+				if r.Stop() {
+					return
+				}
+				parse := guard(func() result { return t.parse(s.rd(), nil) })
+				store := &recStore{}
+				u := mk(s.rd)
+				out := hx.Guard(func() string {
+					mgr, err := updates.NewManager(bg, store, updates.NewLocalLockSource(), http.DefaultClient,
+						updates.WithFactories(map[string]driver.UpdaterSetFactory{}), updates.WithOutOfTree([]driver.Updater{u}), updates.WithBatchSize(1))
+					if err != nil {
+						return "manager-construct-error"
+					}
+					ctx, done := context.WithTimeout(bg, 30*time.Second)
+					defer done()
+					runErr := mgr.Run(ctx)
+					store.mu.Lock()
+					defer store.mu.Unlock()
+					call := "none"
+					if len(store.calls) >= 1 {
+						call = "update"
+					}
+					return fmt.Sprintf("%s %v", call, runErr == nil)
+				})
+				parseTok := "err"
+				if parse.ok() {
+					parseTok = "ok"
+				}
+				r.Op(fmt.Sprintf("drive fetched %s", parseTok), out, true)
+				r.Count("manager-spool:" + t.name + ":" + parseTok + ":" + out)
+				if !parse.ok() && out != "none false" {
+					r.Fail("", fmt.Sprintf("manager touched the store (or reported success) although %s of a damaged spool failed: spool=%s observed=%q spool-bytes=%s", t.name, s.desc, out, hx.Hex(spool)))
+				}
+			}
 		}
 	}
 }
